@@ -285,7 +285,9 @@ func TestC19_SignedManifest(t *testing.T) {
 					want = 2 * curveBytes[key]
 				}
 				if len(b) != want {
-					if key == "p521a" && knownSet.Has(kP521Width) {
+					// listed finding: r||s sized by the larger integer, not by the curve (every curve:
+					// 1 in 4 signatures on P-521, about 1 in 65536 on the others)
+					if keys.Kind(key) != "rsa" && len(b) < want && len(b)%2 == 0 && knownSet.Has(kP521Width) {
 						rec.Excluded(kP521Width)
 						continue
 					}
